@@ -331,7 +331,9 @@ func (root *Root) addExtends(extends ...*Extend) (undo []func(), err error) {
 		if cur == nil {
 			return undo, fmt.Errorf("%s can not be extended because it was %w", x.Adds.Name(), ErrNotFound)
 		}
-		if reflect.TypeOf(x.Adds) != reflect.TypeOf(cur) {
+		// A scalar read from a document is a stringScalar whatever the scalar
+		// it extends is, a built in one or one added with AddTypes().
+		if reflect.TypeOf(x.Adds) != reflect.TypeOf(cur) && !(x.Adds.Rank() == rankScalar && cur.Rank() == rankScalar) {
 			return undo, fmt.Errorf("%w: %s, a %T can not extend a %T", ErrTypeMismatch, x.Adds.Name(), x.Adds, cur)
 		}
 		// Extend modifies the type in place, remember how to undo that in
